@@ -449,15 +449,19 @@ class SymReal:
     def __init__(self, t):
         self.t = t
 
+    def _new(self, o, t):
+        """result keeps the 'Decimal' flavour when one operand has it"""
+        return (SymDec if isinstance(self, SymDec) or isinstance(o, SymDec) else SymReal)(t)
+
     def _b(self, o, f):
         try:
-            return SymReal(f(self.t, lift(o)))
+            return self._new(o, f(self.t, lift(o)))
         except TypeError:
             return NotImplemented
 
     def _r(self, o, f):
         try:
-            return SymReal(f(lift(o), self.t))
+            return self._new(o, f(lift(o), self.t))
         except TypeError:
             return NotImplemented
 
@@ -474,7 +478,7 @@ class SymReal:
         except TypeError:
             return NotImplemented
         _nonzero(d)
-        return SymReal(s.t / d)
+        return s._new(o, s.t / d)
 
     def __rtruediv__(s, o):
         try:
@@ -482,15 +486,15 @@ class SymReal:
         except TypeError:
             return NotImplemented
         _nonzero(s.t)
-        return SymReal(n / s.t)
+        return s._new(o, n / s.t)
 
-    def __neg__(s): return SymReal(-s.t)
+    def __neg__(s): return s._new(None, -s.t)
     def __pos__(s): return s
-    def __abs__(s): return SymReal(z3.If(s.t >= 0, s.t, -s.t))
+    def __abs__(s): return s._new(None, z3.If(s.t >= 0, s.t, -s.t))
 
     def __pow__(s, o):
         try:
-            return SymReal(real_pow(s.t, o.t if isinstance(o, SymReal) else lift(o) if is_sym(o) else o))
+            return s._new(o, real_pow(s.t, o.t if isinstance(o, SymReal) else lift(o) if is_sym(o) else o))
         except TypeError:
             return NotImplemented
 
@@ -552,6 +556,10 @@ class SymReal:
 
     def __round__(self, n=None):
         raise ProxyLeak('round() on a symbolic real')
+
+
+class SymDec(SymReal):
+    """a symbolic real that the library must treat as decimal.Decimal (see stubs.DecimalStub)"""
 
 
 def _nonzero(d):
@@ -805,6 +813,11 @@ def _array_function(func, args, kwargs):
         return args[0]
     if n == 'abs' or n == 'absolute':
         return abs(args[0])
+    if n == 'copyto':
+        dst, src = args[0], args[1]
+        for idx in np.ndindex(dst.shape):
+            dst[idx] = src
+        return None
     if n == 'isscalar':
         return True
     if n == 'iscomplexobj':
@@ -814,6 +827,22 @@ def _array_function(func, args, kwargs):
     if n == 'shape':
         return ()
     raise ProxyLeak(f'numpy function {n} on a symbolic value is not modelled')
+
+
+class SymArr(np.ndarray):
+    """object ndarray of proxies that survives the library's ``astype(float)``"""
+
+    def astype(self, dtype, *a, **kw):
+        if dtype in (float, _float, np.float64):
+            return self
+        return np.ndarray.astype(self, dtype, *a, **kw)
+
+
+def symarr(items):
+    out = np.empty(len(items), dtype=object)
+    for i, x in enumerate(items):
+        out[i] = x
+    return out.view(SymArr)
 
 
 # ---------------------------------------------------------------------------
